@@ -362,12 +362,21 @@ def _add_camera_tracks(rng, world, prof):
         placed.append((cam, x, y, w, h))
         vx, vy = rng.choice([0, 0, rng.randint(-40, 40)]), rng.choice([0, 0, rng.randint(-15, 15)])
         grow = rng.choice([0, 0, rng.randint(-6, 10)])
+        # hand-over: the target leaves one camera's field of view and shows up in another one's
+        n_s = len(a["states"])
+        hand = rng.randrange(1, n_s) if (len(cams) >= 2 and n_s >= 2 and rng.random() < 0.3) else None
+        cam2 = rng.choice([c for c in cams if c != cam]) if hand is not None else None
+        x2, y2 = rng.randint(0, IMG_W - w), rng.randint(0, IMG_H - h)
         for i, st in enumerate(a["states"]):
             if st is None:
                 continue
             wi, hi = max(1, w + grow * i), max(1, h + (grow * i * h) // max(1, w))
-            st["roi"] = [max(0, x + vx * i), max(0, y + vy * i), wi, hi]
-            st["cam"] = cam
+            if hand is not None and i >= hand:
+                st["roi"] = [max(0, x2 + vx * (i - hand)), max(0, y2 + vy * (i - hand)), wi, hi]
+                st["cam"] = cam2
+            else:
+                st["roi"] = [max(0, x + vx * i), max(0, y + vy * i), wi, hi]
+                st["cam"] = cam
 
 
 def _make_storage(rng, prof):
